@@ -50,6 +50,10 @@ pub struct Swarm {
     pub w_tx: u32,
     pub w_ddl: u32,
     pub w_insert_select: u32,
+    /// rows bulk-loaded into the first table before the history starts (0 = none); used to push
+    /// chunked parallel operators (chunk size >= 1000) over more than one chunk
+    #[serde(default)]
+    pub big_rows: usize,
 }
 
 impl Swarm {
@@ -88,6 +92,7 @@ impl Swarm {
             w_tx: 2,
             w_ddl: 1,
             w_insert_select: 1,
+            big_rows: 0,
         };
         // swarm: zero a random subset of the optional classes
         if rng.chance(1, 4) {
@@ -632,4 +637,26 @@ pub fn fk_adjust_insert(rng: &mut Rng, sut: &Sut, world: &World, def: &TableDef,
         }
     }
     Op::insert(&def.name, &op.cols, rows).fault(&note)
+}
+
+/// `count` rows with ascending primary key starting at `start` (bulk load).
+pub fn gen_bulk_insert(rng: &mut Rng, sw: &Swarm, def: &TableDef, start: i64, count: usize) -> Op {
+    let mut rows = Vec::with_capacity(count);
+    for i in 0..count {
+        let mut row: Vec<Lit> = def.cols.iter().map(|c| gen_value(rng, sw, c, true)).collect();
+        if let Some(&k) = def.pk.first() {
+            row[k] = Lit::Int(start + i as i64);
+        }
+        for ch in &def.checks {
+            if let Check::ColLit { col, op, lit } = ch {
+                if let Lit::Int(v) = row[*col] {
+                    if !op.eval(v, *lit) && !def.pk.contains(col) {
+                        row[*col] = Lit::Null;
+                    }
+                }
+            }
+        }
+        rows.push(row);
+    }
+    Op::insert(&def.name, &[], rows)
 }
